@@ -1759,6 +1759,12 @@ func (m *KV) MergeRemoteState(data []byte, _ bool) {
 
 		data = data[kvPairLength:]
 
+		if len(kvPair.Key) == 0 {
+			// Same rule as for single messages in NotifyMsg: a pair without a key is invalid.
+			level.Error(m.logger).Log("msg", "failed to parse remote state: empty key")
+			continue
+		}
+
 		if !utf8.ValidString(kvPair.Key) {
 			// Keys are used as metric label values, which must be valid UTF-8 (otherwise the Prometheus client panics).
 			level.Error(m.logger).Log("msg", "failed to parse remote state: key is not valid UTF-8")
